@@ -1111,7 +1111,12 @@ func Retract(vm *VM, t Term, k Cont, env *Env) *Promise {
 	ks := make([]func(context.Context) *Promise, len(u.clauses))
 	for i, c := range u.clauses {
 		i, c := i, c
-		raw := rulify(c.raw, env)
+		// The stored term may share variables with the query that asserted it. Bindings made since then aren't part of the clause.
+		cp, err := renamedCopy(c.raw, nil, nil)
+		if err != nil {
+			return Error(err)
+		}
+		raw := rulify(cp, nil)
 		ks[i] = func(_ context.Context) *Promise {
 			return Unify(vm, t, raw, func(env *Env) *Promise {
 				// The database may have been updated since the call. Look for the very clause in the current database.
@@ -2009,11 +2014,12 @@ func Clause(vm *VM, head, body Term, k Cont, env *Env) *Promise {
 
 	ks := make([]func(context.Context) *Promise, len(u.clauses))
 	for i, c := range u.clauses {
-		cp, err := renamedCopy(c.raw, nil, env)
+		// The stored term may share variables with the query that asserted it. Bindings made since then aren't part of the clause.
+		cp, err := renamedCopy(c.raw, nil, nil)
 		if err != nil {
 			return Error(err)
 		}
-		r := rulify(cp, env)
+		r := rulify(cp, nil)
 		ks[i] = func(context.Context) *Promise {
 			return Unify(vm, atomIf.Apply(head, body), r, k, env)
 		}
